@@ -24,6 +24,8 @@ type Tree struct {
 	unread []token // Any tokens received by the lexer but not yet read.
 	read   []token // Tokens that have already been read.
 
+	depth int // Current nesting depth of expressions and elseif branches, see deeper.
+
 	Name string // A name identifying this tree; the template name.
 
 	Visitors []NodeVisitor
@@ -87,6 +89,22 @@ func (t *Tree) enrichError(err error) error {
 		err.setTree(t)
 	}
 	return err
+}
+
+// maxDepth bounds how deep expressions and chains of elseif branches may nest.
+// A run of prefix operators, a chain of attribute accesses or filters, a long
+// sum: each link is a level of the tree, and the parser, the node visitors and
+// the executor all recurse over it. Without a bound a large enough flat input
+// exhausts the stack, which ends the process.
+const maxDepth = 10000
+
+// deeper enters one more level of nesting; the caller leaves it with t.depth--.
+func (t *Tree) deeper() error {
+	t.depth++
+	if t.depth > maxDepth {
+		return newNestingError(t.peekNonSpace().Pos)
+	}
+	return nil
 }
 
 // peek returns the next unread token without advancing the internal cursor.
